@@ -663,6 +663,14 @@ def build_tools(tree, wd):
     gcc('ncvalidator', [u + '/ncvalidator/ncvalidator.c'])
     gcc('cdfdiff', [u + '/ncmpidiff/cdfdiff.c'], ['-I' + u + '/ncvalidator'])
     gcc('ncoffsets', [u + '/ncoffsets/ncoffsets.c'])
+    # the same cdfdiff.c with READ_CHUNK_SIZE = 16 bytes: the chunk loop runs several times on the small files too
+    src = open(u + '/ncmpidiff/cdfdiff.c').read()
+    m = re.search(r'^#define\s+READ_CHUNK_SIZE\s+\d+\s*$', src, re.M)
+    if not m:
+        raise BuildFailed('cdfdiff.c: #define READ_CHUNK_SIZE <number> not found')
+    with open(os.path.join(wd, 'cdfdiff_c16.c'), 'w') as fh:
+        fh.write(src[:m.start()] + '#define READ_CHUNK_SIZE 16' + src[m.end():])
+    gcc('cdfdiff_c16', [os.path.join(wd, 'cdfdiff_c16.c')], ['-I' + u + '/ncvalidator', '-I' + u + '/ncmpidiff'])
     inc = ['-DHAVE_CONFIG_H', '-I' + tree + '/src/include']
     T['ncmpidiff'] = cc(tree, [u + '/ncmpidiff/ncmpidiff.c'], os.path.join(wd, 'ncmpidiff'), extra=inc)
     T['ncmpidump'] = cc(tree, [u + '/ncmpidump/' + f for f in ('ncmpidump.c', 'vardata.c', 'dumplib.c')],
@@ -728,8 +736,8 @@ def parse_diff(out):
     return head, var
 
 
-def run_cdfdiff(T, a, b):
-    rc, so, se = run([T['cdfdiff'], a, b])
+def run_cdfdiff(T, a, b, exe='cdfdiff'):
+    rc, so, se = run([T[exe], a, b])
     if rc < 0 or rc > 1:
         return 'crash', rc
     h, v = parse_diff(so)
@@ -1343,6 +1351,7 @@ def _run(V, rng, tier, seed, tree, wd):
         return dict(fmt=1, dims=[('t', 0)] + [('e%d' % n, n) for n in range(1, MAXL + 1)], gatts=[('g', 'int', [1])], numrecs=1,
                     vars=[dict(name='f%d' % n, xt='int', dims=['e%d' % n], atts=[('a', 'int', [n])], data=[[10 + i for i in range(n)]]) for n in range(1, MAXL + 1)] +
                          [dict(name='g%d' % n, xt='short', dims=['t', 'e%d' % n], atts=[('a', 'int', [n])], data=[[20 + i for i in range(n)]]) for n in range(1, MAXL + 1)])
+    files_big = {}
     mr_pairs = []        # (a, b, {var: edited multi-index})
     Lb = mr_base()
     files['mr_b'] = dict(path=os.path.join(wd, 'mr_b.nc'), L=Lb, kw={})
@@ -1367,6 +1376,49 @@ def _run(V, rng, tier, seed, tree, wd):
     for k_, f_ in files.items():
         if k_.startswith('mr_'):
             f_['steps'] = emit_script(prog, f_['path'], f_['L'])
+    # big variables (cdfdiff reads in chunks of 4 MiB): one variable v of 4 MiB + 6, 8 MiB - 4, 8 MiB, 9.5 MiB + 2 bytes
+    # followed by a small variable z, under two layouts, a single value edited at the first / last element, around the
+    # chunk boundaries and in z.  Only those elements are written (nofill: the rest of the sparse file reads as zeros).
+    MiB = 1 << 20
+    BIG = [('fs', 'short', 2, (4 * MiB + 6) // 2, False, False, 1), ('ri', 'int', 4, (8 * MiB - 4) // 4, True, True, 1),
+           ('fd', 'double', 8, (8 * MiB) // 8, False, True, 1), ('rs', 'short', 2, (19 * MiB // 2 + 2) // 2, True, True, 2)]
+    BIG_LAYOUT_B = {'fs': ('nc_header_align_size=8192', 'enddef'), 'ri': ('nc_record_align_size=8192', 'enddef'),
+                    'fd': ('-', 'enddef2 0 4 8192 4'), 'rs': ('nc_header_align_size=4096;nc_record_align_size=4096', 'enddef')}
+    big_pairs = []       # (a, b, equal, expected variable names with DIFF lines)
+    for tagb, xt_, esz, nel, vrec, zrec, nrec in BIG:
+        pts = sorted({0, nel - 1} | {e for bnd in (4 * MiB // esz, 8 * MiB // esz) for e in (bnd - 1, bnd, bnd + 1) if 0 < e < nel - 1})
+        lastrec = nrec - 1
+        def big_script(key, hints, enddef_, edit):
+            pth = os.path.join(wd, key + '.nc')
+            files_big[key] = pth
+            a_ = prog.all
+            a_('create %s 2 clobber %s' % (pth, hints))
+            if vrec or zrec:
+                a_('def_dim t 0')
+            a_('def_dim n %d' % nel)
+            a_('def_dim c 3')
+            a_('def_var v %s %d %s' % (xt_, 2 if vrec else 1, 't n' if vrec else 'n'))
+            a_('def_var z int %d %s' % (2 if zrec else 1, 't c' if zrec else 'c'))
+            a_(enddef_)
+            for q, e in enumerate(pts):
+                val = 1 + q + (1 if edit == ('v', e) else 0)
+                a_('put var1 c v %s c %s - - - : %d' % (MEMT[xt_], ('%d,%d' % (lastrec, e)) if vrec else str(e), val))
+            if vrec and nrec > 1:
+                a_('put var1 c v %s c 0,0 - - - : 9' % MEMT[xt_])
+            for rr in range(nrec if zrec else 1):
+                for e in range(3):
+                    val = 11 + e + (1 if edit == ('z', e) and rr == (nrec - 1 if zrec else 0) else 0)
+                    a_('put var1 c z int c %s - - - : %d' % (('%d,%d' % (rr, e)) if zrec else str(e), val))
+            a_('close')
+        big_script('bg_%s_A' % tagb, '-', 'enddef', None)
+        hb_, eb_ = BIG_LAYOUT_B[tagb]
+        big_script('bg_%s_B' % tagb, hb_, eb_, None)
+        big_pairs += [('bg_%s_A' % tagb, 'bg_%s_B' % tagb, True, set()), ('bg_%s_B' % tagb, 'bg_%s_A' % tagb, True, set())]
+        for e in pts:
+            big_script('bg_%s_v%d' % (tagb, e), '-', 'enddef', ('v', e))
+            big_pairs.append(('bg_%s_A' % tagb, 'bg_%s_v%d' % (tagb, e), False, {'v'}))
+        big_script('bg_%s_z1' % tagb, hb_, eb_, ('z', 1))
+        big_pairs.append(('bg_%s_A' % tagb, 'bg_%s_z1' % tagb, False, {'z'}))
     # files for ncoffsets: the record-packing special case (exactly ONE record variable whose record size is not a
     # multiple of 4: records lie unpadded one after the other) with 0..3 fixed-size variables before / after it and
     # 0..4 records; two record variables (padded records); no record variable
@@ -1497,14 +1549,38 @@ def _run(V, rng, tier, seed, tree, wd):
 
     def per_pair(p):
         a, b, tag, equal = p
-        r = {'cdf': run_cdfdiff(T, files[a]['path'], files[b]['path'])}
+        r = {'cdf': run_cdfdiff(T, files[a]['path'], files[b]['path']), 'cdf16': run_cdfdiff(T, files[a]['path'], files[b]['path'], 'cdfdiff_c16')}
         for np_ in np_list:
             r['mpi%d' % np_] = run_ncmpidiff(T, files[a]['path'], files[b]['path'], np_)
         return (a, b), r
     pair_res = dict(pmap(per_pair, pairs))
     for a, b, tag, equal in pairs:
         lean.ask(('D', a, b), 'D %s %s' % (hexof(files[a]['bytes']), hexof(files[b]['bytes'])))
+        lean.ask(('DK', a, b), 'DK 16 %s %s' % (hexof(files[a]['bytes']), hexof(files[b]['bytes'])))
     log('[S4] %d ordered pairs through cdfdiff/ncmpidiff (%.1fs)' % (len(pairs), V.t.s()))
+    # ---- big variables: cdfdiff (4 MiB chunks) and ncmpidiff on the two layouts and the single-value edits
+    def per_big(x):
+        a, b, equal, names = x
+        rc1, so1, se1 = run([T['cdfdiff'], files_big[a], files_big[b]])
+        rc2, so2, se2 = run([T['ncmpidiff'], files_big[a], files_big[b]])
+        return (rc1, so1), (rc2, so2)
+    big_res = pmap(per_big, big_pairs, workers=8)
+    log('[S4] %d pairs of files with a 4..9.5 MiB variable through cdfdiff/ncmpidiff (%.1fs)' % (len(big_pairs), V.t.s()))
+    for (a, b, equal, names), res2 in zip(big_pairs, big_res):
+        for tool, (rc_, so_) in zip(('cdfdiff', 'ncmpidiff'), res2):
+            evals[0] += 1
+            count('big-variable pair %s' % ('layout' if equal else 'edit'))
+            distinct.add(('big', a, b, tool))
+            got_names = set(diff_lines_by_var(so_))
+            replay = dict(first=a, second=b, tool=tool, exit=rc_, output=so_[-600:], expected_equal=equal, expected_diff_variables=sorted(names),
+                          script=[l for l in prog.lines if any(('/%s.nc' % k) in l for k in (a, b))][:2],
+                          how='the two create ... close blocks of these files in the apirun script of stream lib (checks/c20.py, BIG); cdfdiff compares in chunks of 4 MiB')
+            if equal and (rc_ != 0 or got_names):
+                fail('diff-false-alarm:%s:big-variable-layout' % tool, '%s reports a difference between two files with the same logical content (variable of %s bytes, layouts differ): %s'
+                     % (tool, a.split('_')[1], so_.strip().split('\n')[0][:200]), replay)
+            elif not equal and (rc_ == 0 or got_names != names):
+                fail('diff-misses:%s:big-variable-edit' % tool if rc_ == 0 else 'diff-blames-wrong-variable:%s:big-variable' % tool,
+                     '%s on a single-value edit (%s): exit %s, DIFF lines for variables %s, the edit is in %s' % (tool, b, rc_, sorted(got_names), sorted(names)), replay)
     # ---- stream part: the per-rank partition of ncmpidiff
     # (1) the partition statements of main(), executed for every length 0..40 (and some shapes) on 1..6 processes
     part_lines = ['P %d %d' % (np_, n) for np_ in range(1, 7) for n in range(0, 41)]
@@ -1775,7 +1851,10 @@ def _run(V, rng, tier, seed, tree, wd):
             ties.append(('logicalEq', 'pair %s/%s (%s): Tools.logicalEqB says %s, construction says equal=%s' % (a, b, tag, m[3], equal)))
         if a[0] == 'p':
             replay = dict(tag=tag, script=files[a]['script'], nprocs=files[a]['nprocs'])
-        for tool, got, mod in [('cdfdiff', r['cdf'], m[1])] + [('ncmpidiff', r['mpi%d' % np_], m[2]) for np_ in np_list if 'mpi%d' % np_ in r]:
+        tl = [('cdfdiff', r['cdf'], m[1])]
+        if 'cdf16' in r and ('DK', a, b) in ans:
+            tl.append(('cdfdiff', r['cdf16'], ans[('DK', a, b)].split()[1]))       # READ_CHUNK_SIZE = 16 vs Tools.cdfdiffRecordSame 16
+        for tool, got, mod in tl + [('ncmpidiff', r['mpi%d' % np_], m[2]) for np_ in np_list if 'mpi%d' % np_ in r]:
             out_, rc_ = got
             if tool == 'ncmpidiff' and (files[a].get('nan') or files[b].get('nan')):
                 count('ncmpidiff pair with NaN values (typed comparison, outside the model)')
@@ -1796,6 +1875,7 @@ def _run(V, rng, tier, seed, tree, wd):
             if mod_same != same:
                 ties.append(('diff', '%s pair %s/%s (%s): model %s, tool %s rc=%s' % (tool, a, b, tag, mod, out_, rc_)))
             elif tool == 'cdfdiff' or got is r.get('mpi1'):
+                count('pair %s exact counts compared' % ('cdfdiff chunk 16' if got is r.get('cdf16') else tool))
                 if out_ != mod and not (mod == 'crash' and out_ == 'crash'):
                     ties.append(('diff-count', '%s pair %s/%s (%s): model %s, tool %s' % (tool, a, b, tag, mod, out_)))
     for k in rt_keys:
